@@ -13,8 +13,8 @@
 (***************************************************************************)
 EXTENDS Pipeline, TLC, Json
 
-VARIABLES l, cfg, rq, pc, entered, left, tmpl, accepted, cur, open, nt, stats
-tvars == <<l, cfg, rq, pc, entered, left, tmpl, accepted, cur, open, nt, stats>>
+VARIABLES l, cfg, rq, out, pc, entered, left, tmpl, accepted, cur, open, nt, stats
+tvars == <<l, cfg, rq, out, pc, entered, left, tmpl, accepted, cur, open, nt, stats>>
 
 Trace == ndJsonDeserialize("trace.ndjson")
 Ev    == Trace[l]
@@ -26,22 +26,23 @@ NoRq  == [method |-> "", kind |-> "other", segs |-> << >>, cred |-> << >>]
 
 Close(s) == [s EXCEPT !.accepted = @ + (IF open THEN 1 ELSE 0), !.nontrivial = @ + (IF open /\ nt THEN 1 ELSE 0)]
 
-Init == /\ l = 1 /\ cfg = NoCfg /\ rq = NoRq /\ pc = "idle" /\ entered = 0 /\ left = 0 /\ tmpl = "" /\ accepted = {}
+Init == /\ l = 1 /\ cfg = NoCfg /\ rq = NoRq /\ out = {} /\ pc = "idle" /\ entered = 0 /\ left = 0 /\ tmpl = "" /\ accepted = {}
         /\ cur = "" /\ open = FALSE /\ nt = FALSE
         /\ stats = [accepted |-> 0, nontrivial |-> 0, rejected |-> 0]
 
 Config == /\ Is("Config")
           /\ cfg' = Ev.cfg
           /\ stats' = Close(stats) /\ open' = FALSE /\ nt' = FALSE /\ pc' = "idle"
-          /\ l' = l + 1 /\ UNCHANGED <<rq, entered, left, tmpl, accepted, cur>>
+          /\ l' = l + 1 /\ UNCHANGED <<rq, out, entered, left, tmpl, accepted, cur>>
 
 Req == /\ Is("Req")
        /\ rq' = [method |-> Ev.method, kind |-> Ev.kind, segs |-> Ev.segs, cred |-> Ev.cred]
+       /\ out' = Outcomes(cfg, [method |-> Ev.method, kind |-> Ev.kind, segs |-> Ev.segs, cred |-> Ev.cred])
        /\ cur' = Ev.case /\ pc' = "recv" /\ entered' = 0 /\ left' = 0 /\ tmpl' = "" /\ accepted' = {}
        /\ stats' = Close(stats) /\ open' = TRUE /\ nt' = FALSE
        /\ l' = l + 1 /\ UNCHANGED cfg
 
-Out      == Outcomes(cfg, rq)
+Out      == out      \* = Outcomes(cfg, rq), computed once per request
 RealOuts == { o \in Out : o.id # "#notfound" /\ ~o.synth }
 Valid    == ValidCreds(rq)
 AuthOK(o) == Authorised(EffOf(cfg, OpById(cfg, o.id)), KindOf(cfg), Valid, Installed(cfg))
@@ -53,14 +54,14 @@ MwEnter == /\ Is("MwEnter") /\ open /\ pc \in {"recv", "mw"}
            /\ Ev.has /\ \E o \in RealOuts : o.ts = Ev.tmpl
            /\ (entered > 0 => Ev.tmpl = tmpl)
            /\ entered' = Ev.i /\ tmpl' = Ev.tmpl /\ pc' = "mw"
-           /\ l' = l + 1 /\ UNCHANGED <<cfg, rq, left, accepted, cur, open, nt, stats>>
+           /\ l' = l + 1 /\ UNCHANGED <<cfg, rq, out, left, accepted, cur, open, nt, stats>>
 
 \* C11/C16: authenticators are consulted inside all middlewares
 Auth == /\ Is("Auth") /\ open /\ pc \in {"recv", "mw"} /\ entered = cfg.api.mw
         /\ ~SpecHit(cfg, rq) /\ RealOuts # {}
         /\ accepted' = IF Ev.ok THEN accepted \cup {Ev.s} ELSE accepted
         /\ pc' = "mw"
-        /\ l' = l + 1 /\ UNCHANGED <<cfg, rq, entered, left, tmpl, cur, open, nt, stats>>
+        /\ l' = l + 1 /\ UNCHANGED <<cfg, rq, out, entered, left, tmpl, cur, open, nt, stats>>
 
 TagScheme(tag) == tag   \* the harness strips the token part
 
@@ -74,13 +75,13 @@ Handler == /\ Is("Handler") /\ open /\ pc \in {"recv", "mw"} /\ entered = cfg.ap
                 /\ TagOK(EffOf(cfg, OpById(cfg, o.id)), KindOf(cfg), Valid, Installed(cfg), Ev.tag)
                 /\ (Ev.tag # "" => Ev.tag \in accepted)
            /\ pc' = "handler" /\ nt' = TRUE
-           /\ l' = l + 1 /\ UNCHANGED <<cfg, rq, entered, left, tmpl, accepted, cur, open, stats>>
+           /\ l' = l + 1 /\ UNCHANGED <<cfg, rq, out, entered, left, tmpl, accepted, cur, open, stats>>
 
 NotFound == /\ Is("NotFound") /\ open /\ pc = "recv" /\ entered = 0
             /\ ~SpecHit(cfg, rq) /\ NotFoundT \in Out
             /\ Ev.custom = cfg.api.notFound
             /\ pc' = "nf"
-            /\ l' = l + 1 /\ UNCHANGED <<cfg, rq, entered, left, tmpl, accepted, cur, open, nt, stats>>
+            /\ l' = l + 1 /\ UNCHANGED <<cfg, rq, out, entered, left, tmpl, accepted, cur, open, nt, stats>>
 
 Cors == /\ Is("Cors") /\ open /\ pc = "recv" /\ entered = 0
         /\ ~SpecHit(cfg, rq)
@@ -88,19 +89,19 @@ Cors == /\ Is("Cors") /\ open /\ pc = "recv" /\ entered = 0
                           /\ SeqSet(Ev.methods) = CorsMethods(cfg, o.item) /\ NoDup(Ev.methods)
                           /\ SeqSet(Ev.headers) = CorsHeaders(cfg, o.item) /\ NoDup(Ev.headers)
         /\ pc' = "cors" /\ nt' = TRUE
-        /\ l' = l + 1 /\ UNCHANGED <<cfg, rq, entered, left, tmpl, accepted, cur, open, stats>>
+        /\ l' = l + 1 /\ UNCHANGED <<cfg, rq, out, entered, left, tmpl, accepted, cur, open, stats>>
 
 Spec == /\ Is("Spec") /\ open /\ pc = "recv" /\ entered = 0
         /\ SpecHit(cfg, rq)
         /\ pc' = "spec" /\ nt' = TRUE
-        /\ l' = l + 1 /\ UNCHANGED <<cfg, rq, entered, left, tmpl, accepted, cur, open, stats>>
+        /\ l' = l + 1 /\ UNCHANGED <<cfg, rq, out, entered, left, tmpl, accepted, cur, open, stats>>
 
 MwLeave == /\ Is("MwLeave") /\ open /\ pc \in {"handler", "rejected", "mw"}
            /\ Ev.i = entered - left /\ Ev.i >= 1
            \* leaving without a handler is only explained by a 401 (checked at Done)
            /\ pc' = IF pc = "mw" THEN "rejected" ELSE pc
            /\ left' = left + 1
-           /\ l' = l + 1 /\ UNCHANGED <<cfg, rq, entered, tmpl, accepted, cur, open, nt, stats>>
+           /\ l' = l + 1 /\ UNCHANGED <<cfg, rq, out, entered, tmpl, accepted, cur, open, nt, stats>>
 
 \* C14: exactly one response, no panic; and the status each way of ending implies
 Done == /\ Is("Done") /\ open
@@ -119,7 +120,7 @@ Done == /\ Is("Done") /\ open
                        /\ \E o \in RealOuts : ~AuthOK(o)
              [] OTHER -> FALSE
         /\ pc' = "done" /\ nt' = (nt \/ Ev.status = 401)
-        /\ l' = l + 1 /\ UNCHANGED <<cfg, rq, entered, left, tmpl, accepted, cur, open, stats>>
+        /\ l' = l + 1 /\ UNCHANGED <<cfg, rq, out, entered, left, tmpl, accepted, cur, open, stats>>
 
 Step == Config \/ Req \/ MwEnter \/ Auth \/ Handler \/ NotFound \/ Cors \/ Spec \/ MwLeave \/ Done
 
@@ -128,7 +129,13 @@ NextBoundary(k) == IF k > Len(Trace) THEN k
                    ELSE IF Trace[k].ev \in {"Req", "Config"} THEN k ELSE NextBoundary(k + 1)
 
 \* ---- known-finding selectors (KnownFindings: predicates on the abstract case) ----
-KF == IF \E c \in PresentCreds(rq) : c \notin Installed(cfg) THEN "nil-auth"
+\* Both describe an over-permissive dispatch: the handler ran although the operation's own requirement
+\* was not met, on an operation whose requirement has the shape the finding is about.
+EffOfT(o)       == EffOf(cfg, OpById(cfg, o.id))
+HasUnsupported(o) == \E k \in DOMAIN EffOfT(o) : \E s \in SeqSet(EffOfT(o)[k]) : KindOf(cfg)[s] \notin SupportedKinds
+HasAndAlt(o)      == \E k \in DOMAIN EffOfT(o) : Len(EffOfT(o)[k]) >= 2
+KF == IF l <= Len(Trace) /\ Ev.ev = "Handler" /\ \E o \in RealOuts : o.id = Ev.op /\ HasUnsupported(o) THEN "c11-unsupported"
+      ELSE IF l <= Len(Trace) /\ Ev.ev = "Handler" /\ \E o \in RealOuts : o.id = Ev.op /\ HasAndAlt(o) THEN "c11-and-alt"
       ELSE ""
 
 Skip == /\ l <= Len(Trace) /\ ~ENABLED Step
@@ -138,12 +145,12 @@ Skip == /\ l <= Len(Trace) /\ ~ENABLED Step
         /\ stats' = [stats EXCEPT !.rejected = @ + 1]
         /\ open' = FALSE /\ nt' = FALSE /\ pc' = "idle"
         /\ l' = NextBoundary(l + 1)
-        /\ UNCHANGED <<cfg, rq, entered, left, tmpl, accepted, cur>>
+        /\ UNCHANGED <<cfg, rq, out, entered, left, tmpl, accepted, cur>>
 
 Finish == /\ l = Len(Trace) + 1
           /\ PrintT(ToJson([verdict |-> "END", at |-> l, accepted |-> Close(stats).accepted,
                             nontrivial |-> Close(stats).nontrivial, rejected |-> stats.rejected]))
-          /\ l' = l + 1 /\ UNCHANGED <<cfg, rq, pc, entered, left, tmpl, accepted, cur, open, nt, stats>>
+          /\ l' = l + 1 /\ UNCHANGED <<cfg, rq, out, pc, entered, left, tmpl, accepted, cur, open, nt, stats>>
 
 Next == Step \/ Skip \/ Finish
 Spec0 == Init /\ [][Next]_tvars
